@@ -251,6 +251,8 @@ def shard(desc):
         if len(res.samples) < 2 and 3 <= len(xs) <= 5 and kind != 'standard':
             res.sample({'type': typ, 'kind': kind, 'program': c.ops,
                         'last_observation': {k: common.show(v) for k, v in [r for r in recs if r.kind == 'o'][-1].kv.items()}})
+    if plan:
+        res.ensure_sample(plan[0][0])
     for c in hcases:
         recs = logs.get(c.id)
         o = [r for r in recs if r.kind == 'o']
